@@ -66,7 +66,7 @@ int main(void)
     /* continuation: API call to send */
     enc = matrixSslEncodeToOutdata(cli.ssl, (unsigned char *) "still-talking", 13);
     printf("client: matrixSslEncodeToOutdata after the decoding error = %d\n", enc);
-    if (first < 0 && enc > 0)
+    if (enc > 0)
     {
         n = drain(&cli, wire, sizeof(wire));
         srv.appLen = 0;
@@ -77,6 +77,11 @@ int main(void)
         violation = 1;
     }
     rc = matrixSslEncodeClosureAlert(cli.ssl);
-    printf("client: matrixSslEncodeClosureAlert = %d (an errored session returns <0)\n", rc);
+    printf("client: matrixSslEncodeClosureAlert = %d\n", rc);
+    if (!violation)
+    {
+        printf("OK: the malformed handshake record ended the session (alert "
+               "queued / error flag set, no further encryption)\n");
+    }
     return violation;
 }
